@@ -62,7 +62,8 @@ fn check_node(e: &Element<String>, r: &RNode, ancestors: &mut Vec<String>, w: &m
             prefix = format!("{}{}", ancestors[ancestors.len() - j], prefix);
         }
         if let Some(rest) = name.strip_prefix(prefix.as_str()) {
-            if rest.chars().all(|c| c.is_ascii_digit()) {
+            // a disambiguating suffix: digits, possibly separated by underscores (the statement does not fix its form)
+            if rest.chars().all(|c| c.is_ascii_digit() || c == '_') {
                 found = Some(j);
                 if !rest.is_empty() {
                     w.suffixed += 1;
@@ -194,7 +195,7 @@ impl Property for C14 {
         vec![
             "PascalCase form = Element::formatted_name() (convert_string), sanity-checked to keep exactly the name's letters and digits and to start upper/uncased".into(),
             "names avoid code points whose case mapping changes length".into(),
-            "a disambiguating suffix is a run of ASCII digits".into(),
+            "a disambiguating suffix is a run of ASCII digits and underscores".into(),
         ]
     }
     fn describe(&self, tapes: &Tapes) -> Value {
